@@ -358,10 +358,13 @@ def callee_is(t, *names):
     d = strip_generics(t.get("decl") or "")
     for n in names:
         if n.startswith("*"):
-            if c.endswith(n[1:]) or d.endswith(n[1:]):
+            sfx = strip_generics(n[1:])
+            if c.endswith(sfx) or d.endswith(sfx):
                 return True
-        elif c == n or d == n:
-            return True
+        else:
+            n = strip_generics(n)
+            if c == n or d == n:
+                return True
     return False
 
 
